@@ -404,6 +404,70 @@ func ruleC06Order(p *Prog, r *Res) {
 						}
 					}
 				}
+				// (C) a predicate — a local closure or a function of the package — that ranges over its parameter and
+				// answers true under an uncertainty test: anyPending(f.MainTags) || anyPending(f.SubQueryTags)
+				for _, d := range disjuncts(s.Cond) {
+					c, ok := ast.Unparen(d).(*ast.CallExpr)
+					if !ok || len(c.Args) != 1 {
+						continue
+					}
+					var body *ast.BlockStmt
+					var ftype *ast.FuncType
+					if o := identObj(info, c.Fun); o != nil {
+						ast.Inspect(f.Body(), func(y ast.Node) bool {
+							if as, ok := y.(*ast.AssignStmt); ok && len(as.Lhs) == len(as.Rhs) {
+								for i, l := range as.Lhs {
+									if identObj(info, l) == o {
+										if lit, ok := ast.Unparen(as.Rhs[i]).(*ast.FuncLit); ok {
+											body, ftype = lit.Body, lit.Type
+										}
+									}
+								}
+							}
+							return true
+						})
+					}
+					if body == nil {
+						if fn := p.Callee(f.Pkg, c); fn != nil {
+							if h := p.FnOfObj(fn); h != nil && h.Short == "manager" && h.Body() != nil {
+								body, ftype = h.Body(), h.Type()
+							}
+						}
+					}
+					if body == nil || ftype.Params == nil || len(ftype.Params.List) != 1 || len(ftype.Params.List[0].Names) != 1 {
+						continue
+					}
+					param := info.Defs[ftype.Params.List[0].Names[0]]
+					answers := false
+					ast.Inspect(body, func(y ast.Node) bool {
+						rs, ok := y.(*ast.RangeStmt)
+						if !ok || identObj(info, rs.X) != param || param == nil {
+							return true
+						}
+						ast.Inspect(rs.Body, func(z ast.Node) bool {
+							ifs, ok := z.(*ast.IfStmt)
+							if !ok {
+								return true
+							}
+							cond := types.ExprString(ifs.Cond)
+							if !(strings.Contains(cond, "Uncertain") || strings.Contains(cond, "uncertainTags") || strings.Contains(cond, "ok")) {
+								return true
+							}
+							for _, st := range ifs.Body.List {
+								if ret, ok := st.(*ast.ReturnStmt); ok && len(ret.Results) == 1 && types.ExprString(ret.Results[0]) == "true" {
+									answers = true
+								}
+							}
+							return true
+						})
+						return true
+					})
+					if answers {
+						for k := range refKind(c.Args[0]) {
+							cov[k] = true
+						}
+					}
+				}
 				if len(cov) > 0 {
 					guards = append(guards, guard{s.Cond, cov})
 				}
